@@ -11,20 +11,21 @@
 EXTENDS Poly, Json, IOUtils
 Recs == ndJsonDeserialize(IOEnv.QV_RECS)
 NR == Len(Recs)
-VARIABLES c, ph, s
-vars == <<c, ph, s>>
-DOf == TLCEval([i \in 1..NR |-> FromRaw(Recs[i].spin_tgt, Recs[i].D)])
-MOf == TLCEval([i \in 1..NR |-> FromRaw(Recs[i].spin_src, Recs[i].M)])
-MapOf(i) == LET ps == Recs[i].map IN [x \in {ps[q][1] : q \in 1..Len(ps)} |-> ps[CHOOSE q \in 1..Len(ps) : ps[q][1] = x][2]]
-DVars(i) == IF Recs[i].raised = "" THEN VarsOf(DOf[i]) \cup (0..(Recs[i].n - 1)) ELSE {}
-Init == c = 0 /\ ph = 0 /\ s = {}
-Next == \/ ph = 0 /\ ph' = 1 /\ c' \in 1..16 /\ s' = s
-        \/ ph = 1 /\ ph' = 2 /\ c' \in {i \in 1..NR : i % 16 = c % 16} /\ s' = s
-        \/ ph = 2 /\ ph' = 3 /\ c' = c /\ s' \in SUBSET DVars(c)
-Spec == Init /\ [][Next]_vars
+VARIABLES c, ph, s, k      \* k: polynomials and mapping of the chosen record, canonicalised once and carried in the state
+vars == <<c, ph, s, k>>
+MapOfRec(r) == LET ps == r.map IN [x \in {ps[q][1] : q \in 1..Len(ps)} |-> ps[CHOOSE q \in 1..Len(ps) : ps[q][1] = x][2]]
+Cache(r) == [d |-> FromRaw(r.spin_tgt, r.D), m |-> FromRaw(r.spin_src, r.M), map |-> MapOfRec(r)]
+NoCache == [d |-> Zero, m |-> Zero, map |-> << >>]
 R == Recs[c]
-Dp == DOf[c]
-Mp == MOf[c]
+Dp == k.d
+Mp == k.m
+MapOf(i) == k.map
+DVarsNow == IF R.raised = "" THEN VarsOf(Dp) \cup (0..(R.n - 1)) ELSE {}
+Init == c = 0 /\ ph = 0 /\ s = {} /\ k = NoCache
+Next == \/ ph = 0 /\ ph' = 1 /\ c' \in 1..16 /\ UNCHANGED <<s, k>>
+        \/ ph = 1 /\ ph' = 2 /\ s' = s /\ \E i \in {j \in 1..NR : j % 16 = c % 16} : c' = i /\ k' = Cache(Recs[i])
+        \/ ph = 2 /\ ph' = 3 /\ c' = c /\ k' = k /\ s' \in SUBSET DVarsNow
+Spec == Init /\ [][Next]_vars
 Clause(name, cond) == cond \/ (PrintT(<<"QVVIOL", name, c, R.id>>) /\ FALSE)
 Case == ph = 2
 Point == ph = 3
